@@ -849,7 +849,18 @@ var _ = sort.Ints
 // and every term is expressible there, else to the bit-vector solver.
 func (in *Interp) check(conj []*Term) Result {
 	in.cur = in.solver
-	if in.path != nil && in.path.IntMode {
+	useInt := in.path != nil && in.path.IntMode
+	if !useInt {
+		// multiplication chains (decimal Horner sums, unit conversions) are linear
+		// arithmetic in the INT encoding and expensive for the bit-vector solver
+		for _, c := range conj {
+			if in.ts.HasMul(c) {
+				useInt = true
+				break
+			}
+		}
+	}
+	if useInt {
 		if in.isolver == nil {
 			name, tmo := "z3-new", 2500
 			if e := os.Getenv("SYMGO_INT_SOLVER"); e != "" {
